@@ -576,7 +576,7 @@ class _Inliner(ast.NodeTransformer):
         f = call.func
         if isinstance(f, ast.Name) and f.id in self.helpers and not self.helpers[f.id][1]:
             return f.id
-        if isinstance(f, ast.Attribute) and isinstance(f.value, ast.Name) and f.value.id in ("self", "cls") and self.cls:
+        if isinstance(f, ast.Attribute) and isinstance(f.value, ast.Name) and self.cls and f.value.id in ("self", "cls", self.cls):
             k = f"{self.cls}.{f.attr}"
             if k in self.helpers:
                 return k
@@ -766,9 +766,13 @@ class _Inliner(ast.NodeTransformer):
         rets = [x for b in body for x in _walk_fn(b) if isinstance(x, ast.Return)]
         trailing = body and isinstance(body[-1], ast.Return)
         valued = [r for r in rets if r.value is not None]
+        multi = False
         if kind in ("assign", "return"):
             if not (trailing and len(rets) == 1 and valued):
-                return None
+                # several `return E`: still inlinable when the body is a tree of if/else whose every path ends in a return
+                if not (rets and all(r.value is not None for r in rets) and _all_paths_return(body)):
+                    return None
+                multi = True
         else:
             if valued and not (trailing and len(rets) == 1):
                 return None
@@ -797,6 +801,19 @@ class _Inliner(ast.NodeTransformer):
         if senv:
             sb = _Subst(senv)
             new_body = [sb.visit(b) for b in new_body]
+        if multi:
+            if kind == "return":
+                conv = new_body  # the helper's returns are the caller's returns
+            else:
+                conv = _returns_to_assign(new_body, st.targets[0])
+            out = binds + conv
+            for b in out:
+                for x in ast.walk(b):
+                    if not hasattr(x, "lineno"):
+                        ast.copy_location(x, st)
+                ast.fix_missing_locations(b)
+            self.done.append(k)
+            return self._block(out)
         bare_early = [r for r in rets if r.value is None and not (trailing and r is body[-1])]
         # map returns of the deep copy
         if kind == "expr" and (bare_early or (trailing and rets and rets[-1].value is None)):
@@ -827,6 +844,52 @@ class _Inliner(ast.NodeTransformer):
         self.done.append(k)
         # nested helpers inside the inlined body
         return self._block(out)
+
+
+def _all_paths_return(stmts) -> bool:
+    """every path through the statement list ends in `return <value>` (if/else trees and straight-line code only)"""
+    if not stmts:
+        return False
+    for i, st in enumerate(stmts):
+        if isinstance(st, ast.Return):
+            return st.value is not None
+        if isinstance(st, ast.Raise):
+            return True
+        if isinstance(st, ast.If):
+            if _all_paths_return(st.body) and (_all_paths_return(st.orelse) if st.orelse else _all_paths_return(stmts[i + 1:])):
+                return True
+            if st.orelse and not _all_paths_return(st.body) and not _all_paths_return(st.orelse):
+                continue
+            if not st.orelse and not _all_paths_return(st.body):
+                if any(isinstance(x, ast.Return) for x in ast.walk(st)):
+                    return False
+                continue
+            return False
+        if isinstance(st, (ast.For, ast.AsyncFor, ast.While, ast.Try, ast.With, ast.AsyncWith, ast.Match)) and any(isinstance(x, ast.Return) for x in ast.walk(st)):
+            return False
+    return False
+
+
+def _returns_to_assign(stmts, target):
+    """`if c: return A` / `return B`  ->  `if c: t = A else: t = B` (the statement list must satisfy _all_paths_return)"""
+    out = []
+    for i, st in enumerate(stmts):
+        if isinstance(st, ast.Return):
+            out.append(ast.Assign(targets=[copy.deepcopy(target)], value=st.value))
+            return out
+        if isinstance(st, ast.If) and any(isinstance(x, ast.Return) for x in ast.walk(st)):
+            body = _returns_to_assign(st.body, target)
+            if st.orelse:
+                orelse = _returns_to_assign(st.orelse, target)
+                rest = stmts[i + 1:]
+                if rest and not (_all_paths_return(st.body) and _all_paths_return(st.orelse)):
+                    orelse = orelse + _returns_to_assign(rest, target)
+                out.append(ast.If(test=st.test, body=body, orelse=orelse))
+                return out
+            out.append(ast.If(test=st.test, body=body, orelse=_returns_to_assign(stmts[i + 1:], target)))
+            return out
+        out.append(st)
+    return out
 
 
 def _hoist_candidates(expr, is_target):
@@ -1705,8 +1768,11 @@ def canonicalise(tree: ast.Module, modname: str, is_package: bool = False):
                 if rc is None:
                     continue
                 for m in st.body:
-                    if isinstance(m, (ast.FunctionDef, ast.AsyncFunctionDef)) and _is_private(m.name) and m.name not in rc["methods"] and not m.decorator_list:
-                        helpers[f"{st.name}.{m.name}"] = (m, True)
+                    if isinstance(m, (ast.FunctionDef, ast.AsyncFunctionDef)) and _is_private(m.name) and m.name not in rc["methods"]:
+                        if not m.decorator_list:
+                            helpers[f"{st.name}.{m.name}"] = (m, True)
+                        elif [_dotted(d) for d in m.decorator_list] == ["staticmethod"]:
+                            helpers[f"{st.name}.{m.name}"] = (m, False)
         if helpers:
             inl = _Inliner(helpers)
             for _ in range(3):
